@@ -439,3 +439,31 @@ func nonZeroByContext(fd *ast.FuncDecl, site ast.Node, v *types.Var, info *types
 	}
 	return ""
 }
+
+// signatureRange: the kinds raised must include every kind of must and nothing outside must ∪ may.
+func signatureRange(r *core.Run, rule, recv, method string, must, may []string) {
+	fn := r.W.Fn("interpreter", recv, method)
+	key := "interpreter.(" + recv + ")." + method
+	if fn == nil || len(fn.Blocks) == 0 {
+		r.Undecided(rule, key, "method does not resolve")
+		return
+	}
+	got := thrownKinds(r.W, fn, 2)
+	allowed := map[string]bool{}
+	bad := ""
+	for _, k := range must {
+		allowed[k+"Error"] = true
+		if !got[k+"Error"] {
+			bad = "never raises " + k
+		}
+	}
+	for _, k := range may {
+		allowed[k+"Error"] = true
+	}
+	for k := range got {
+		if !allowed[k] {
+			bad = "raises " + k + ", which the property does not allow for this operation"
+		}
+	}
+	r.Check(bad == "", rule, key, fn.Pos(), "raises {"+kindsOf(got)+"} within must {"+kindSet(must...)+"} may {"+kindSet(may...)+"}", bad)
+}
